@@ -12,12 +12,15 @@ Proof. exact qeq_sound. Qed.
 Theorem C17_hash : forall q1 q2, qeq q1 q2 = true ->
   exists h1 h2, qhash q1 = Some h1 /\ qhash q2 = Some h2 /\ hv_eqb h1 h2 = true.
 Proof. exact qeq_hash. Qed.
+(* a & b == b & a and a | b == b | a for hashable operands whose comparison values are
+   reflexive under == (hv_refl_ok: no NaN and no dict as a comparison value; Python's tuple
+   equality has the same NaN caveat) *)
 Theorem C17_and_comm : forall a b ha hb, qhash a = Some ha -> qhash b = Some hb ->
-  hv_nan_free ha = true -> hv_nan_free hb = true -> qeq (QAnd a b) (QAnd b a) = true.
-Proof. exact qeq_and_comm. Qed.
+  hv_refl_ok ha = true -> hv_refl_ok hb = true -> qeq (QAnd a b) (QAnd b a) = true.
+Proof. exact qeq_and_comm_ok_alt. Qed.
 Theorem C17_or_comm : forall a b ha hb, qhash a = Some ha -> qhash b = Some hb ->
-  hv_nan_free ha = true -> hv_nan_free hb = true -> qeq (QOr a b) (QOr b a) = true.
-Proof. exact qeq_or_comm. Qed.
+  hv_refl_ok ha = true -> hv_refl_ok hb = true -> qeq (QOr a b) (QOr b a) = true.
+Proof. exact qeq_or_comm_ok_alt. Qed.
 Theorem C17_map_never_equal : forall q q', has_map q = true -> qeq q q' = false /\ qeq q' q = false.
 Proof. exact map_never_equal. Qed.
 Theorem C17_noop_never_equal : forall a q, qeq (QNoop a) q = false /\ qeq q (QNoop a) = false.
